@@ -90,7 +90,7 @@ func init() {
 		Real:   commonReal, Stub: commonStub})
 	addPlan(&propertyPlan{ID: "C11",
 		Scenarios: []scenarioPlan{{Name: "c11_poller", Quick: 15000, Thorough: 700000}, {Name: "c11_trigger", Quick: 20000, Thorough: 1000000}, {Name: "c18_pool", Quick: 3000, Thorough: 100000}},
-		Rule: "one run = the real defaultPoll loop with 1-140 harness-owned FDOperators over socket pairs (140 makes the batch cross the 128-event growth threshold); up to 8 peers write 0-3000 bytes in seeded chunkings and then stay, close, half-close or close with unread data; a third of the descriptors also have output to send through the poller; optional Detach(+Free), Trigger and finally Close from other tasks; kernel short reads/writes, EAGAIN, epoll EINTR and batch clipping; the flag combinations are those the real kernel produces for AF_UNIX; c11_trigger: 1-4 tasks call Trigger 1-3 times each at seeded instants (also while the loop handles an earlier wake-up or socket input), then, with the loop blocked, two further Triggers must each be written to the wake-up descriptor and consumed by the loop; non-trivial = every run; distinct = distinct step-trace hash",
+		Rule: "one run = the real defaultPoll loop with 1-140 harness-owned FDOperators over socket pairs (140 makes the batch cross the 128-event growth threshold); up to 8 peers write 0-3000 bytes in seeded chunkings and then stay, close, half-close or close with unread data; a third of the descriptors also have output to send through the poller; 0-2 further descriptors are registered the way a connecting socket is (writability only, edge-triggered: events carry OUT, RDHUP, HUP but never IN) with a peer that stays or goes away; optional Detach(+Free), Trigger and finally Close from other tasks; kernel short reads/writes, EAGAIN, epoll EINTR and batch clipping; the flag combinations are those the real kernel produces for AF_UNIX; c11_trigger: 1-4 tasks call Trigger 1-3 times each at seeded instants (also while the loop handles an earlier wake-up or socket input), then, with the loop blocked, two further Triggers must each be written to the wake-up descriptor and consumed by the loop; non-trivial = every run; distinct = distinct step-trace hash",
 		Assume: []string{"detaching a descriptor means deregistering it and handing its slot back (what connection does); TCP-only flag combinations are not produced", "poll_default_bsd.go cannot be built on this platform and is outside the check"},
 		Real:   commonReal, Stub: commonStub})
 
@@ -101,8 +101,9 @@ func init() {
 			{Name: "c07_reader", Quick: 1000, Thorough: 40000, Race: true}, {Name: "c08_flush", Quick: 800, Thorough: 30000, Race: true},
 			{Name: "c13_server", Quick: 800, Thorough: 30000, Race: true}, {Name: "c14_dial", Quick: 800, Thorough: 30000, Race: true},
 			{Name: "c17_shardqueue", Quick: 800, Thorough: 30000, Race: true}, {Name: "c18_pool", Quick: 500, Thorough: 20000, Race: true},
-			{Name: "c10_isolation", Quick: 500, Thorough: 20000, Race: true}},
-		Rule: "the scenarios of C04-C10, C13, C14, C17, C18 (public API inside its concurrency contract: one reader, one writer, any number of closers per connection; no reconfiguration concurrent with Pick) executed in a -race build of the rewritten tree (netpoll's own race-build files: SafeLinkBuffer, fd->operator map); the simulator's hand-offs are hidden from the detector (runtime.RaceDisable around them, //go:norace on the shims), vsync.Mutex/Map are built on real atomics and vatomic calls the real instrumented atomics, so happens-before comes from netpoll's own synchronisation only; every new detector report is attributed to the run that produced it, reports with an access made by harness code are discarded; non-trivial/distinct as in the hosting scenario",
+			{Name: "c10_isolation", Quick: 500, Thorough: 20000, Race: true}, {Name: "c10_batch", Quick: 400, Thorough: 20000, Race: true},
+			{Name: "c05_prepare", Quick: 400, Thorough: 15000, Race: true}, {Name: "c11_trigger", Quick: 400, Thorough: 15000, Race: true}},
+		Rule: "the scenarios of C04-C11, C13, C14, C17, C18 (public API inside its concurrency contract: one reader, one writer, any number of closers per connection; no reconfiguration concurrent with Pick) executed in a -race build of the rewritten tree (netpoll's own race-build files: SafeLinkBuffer, fd->operator map); the simulator's hand-offs are hidden from the detector (runtime.RaceDisable around them, //go:norace on the shims), vsync.Mutex/Map are built on real atomics and vatomic calls the real instrumented atomics, so happens-before comes from netpoll's own synchronisation only; every new detector report is attributed to the run that produced it, reports with an access made by harness code are discarded; non-trivial/distinct as in the hosting scenario",
 		Assume: []string{"the Go race detector is the oracle (trusted base)", "a report is a pair of conflicting accesses that are unordered in that execution; the schedule search supplies which accesses occur", "reports are deduplicated per process, so a reported run is confirmed by replaying its unminimised tapes in a fresh process"},
 		Real:   commonReal, Stub: commonStub})
 }
